@@ -28,7 +28,10 @@ FIRST_TRY = {'C01': True, 'C02': True, 'C03': False, 'C04': True, 'C05': False, 
              'C18h': False, 'C19h': False, 'C20h': True,
              'C01i': True, 'C02i': False, 'C03i': True, 'C04i': False, 'C05i': False, 'C06i': True, 'C07i': True, 'C08i': True, 'C09i': True,
              'C10i': False, 'C11i': True, 'C12i': True, 'C13i': False, 'C14i': True, 'C15i': True, 'C16i': True, 'C17i': True,
-             'C18i': False, 'C19i': False, 'C20i': False}
+             'C18i': False, 'C19i': False, 'C20i': False,
+             'C01j': True, 'C02j': True, 'C03j': False, 'C04j': False, 'C05j': True, 'C06j': True, 'C07j': True, 'C08j': False, 'C09j': True,
+             'C10j': False, 'C11j': True, 'C12j': True, 'C13j': True, 'C14j': True, 'C15j': True, 'C16j': True, 'C17j': True,
+             'C18j': False, 'C19j': False, 'C20j': True}
 REJECTED = {
     'C18h': 'superseded: caught by C18 (send:Updates:over) until repair e4f0c24 moved the counting to write time; since then the '
             'change is consistent with the statistic and no longer a C18 violation',
@@ -94,6 +97,12 @@ STRENGTHEN = {
     'C18i': 'NOTIFICATION events whose data is not valid UTF-8 (Cease 6/2 and 6/4) and code 7 in the walks; the C01 notification grid got the same data values',
     'C19i': 'peer announcements / withdrawals whose prefixes carry set bits beyond the prefix length (ann / wd "dirty"), one more prefix of unaligned length',
     'C20i': 'update payloads that neither json library can serialise: tuple keys, non-UTF-8 octet strings, sets, nested',
+    'C03j': 'caught by C01 from the start (second OPEN in OpenConfirm must change nothing); C03 itself now may send a second OPEN with another hold time while the agent waits for the KEEPALIVE - if the agent lets it pass, the timers are those of the first negotiation',
+    'C04j': 'the peer OPEN of handshake-mode streams may advertise capabilities the agent does not have (6 = extended message, 70, 9, 71): the length bounds stay 19..4096',
+    'C08j': 'new kind: ADD-PATH encoding (Update.construct(..., addpath=True)) with path identifiers 0, edges, missing, None - refused, or every entry is identifier + prefix on the wire',
+    'C10j': 'the connectionLost of an earlier session that the agent ended itself may arrive only after the next session is Established (late_lost): the running session must not notice',
+    'C18j': 'scripted adaptive scenarios: the peer drops TCP in OpenSent / OpenConfirm / Established (or the agent ends the session) and is then unreachable for 400 s, statistic compared after every timer and every failed attempt',
+    'C19j': 'histories may run on an iBGP session (the REST API adds the default LOCAL_PREF; an unchanged re-announcement is no change)',
     'C16c': 'send cases now run with [bgp] rib on or off and with 0-2 earlier announcements on the same session whose prefixes the checked request may withdraw or re-announce (a withdraw list mixing announced and never-announced prefixes is the trigger)',
     'C19c': 'new operation: one peer UPDATE that carries IPv4 withdrawn routes together with a flowspec / VPNv4 MP_REACH or MP_UNREACH attribute; both parts must be applied (patch rebased onto the current tree because a later fix touched the same lines; original kept as patch.orig.diff)',
     'C20c': 'the peer address as configured became a dimension (IPv4, lower-case IPv6, upper-case IPv6) and a handler callback that raises is now a violation (event not logged) instead of a harness error',
@@ -124,7 +133,7 @@ def main():
     with open(os.path.join(HERE, 'seeded', 'INDEX.md'), 'w') as f:
         f.write('# Seeded changes (written by fresh sub-agents that saw only the property text)\n\n'
                 'Round 1: one change per property (C01..C20). Round 2 (ids ending in b): a second, different change for all twenty\n'
-                'properties. Rounds 3 to 8 (ids ending in c / d, e, f, g, h and i): further ones, the sub-agent being told what the earlier rounds had changed.\n'
+                'properties. Rounds 3 to 9 (ids ending in c / d, e, f, g, h, i and j): further ones, the sub-agent being told what the earlier rounds had changed.\n'
                 'Each directory holds patch.diff, the agent\'s demo.py, meta.json (incl. what the verifier ran) and\n'
                 'result.txt; `tools/try_seed.sh <id>` re-runs the confirmation on scratch copies of /repo.\n\n'
                 '| id | change | needs | caught on first run | final check result |\n|---|---|---|---|---|\n')
